@@ -518,6 +518,15 @@ func init() {
 					g = orb.Collection{orb.Polygon{ringZig()}, orb.Polygon{ringPlain()}, straight()}
 				}
 			}
+			if col, ok := g.(orb.Collection); ok && i%7 == 3 {
+				// a nil geometry as a member (at the top or one level down): skipped by every entry point
+				j := c.rng.Intn(len(col) + 1)
+				col = append(col[:j:j], append(orb.Collection{nil}, col[j:]...)...)
+				if c.rng.Intn(3) == 0 {
+					col = append(col, orb.Collection{nil, orb.Point{1, 2}})
+				}
+				g = col
+			}
 			c20Run(c, g)
 		}
 	})
